@@ -1093,6 +1093,19 @@ pub fn start_exploring(schedule: Vec<Seg>) {
     s.exploring = true;
 }
 
+/// ends the current schedule segment at once: the next schedule point of the calling thread
+/// takes a decision with the next segment. lets a generated case synchronise its schedule
+/// with a phase boundary of its program ("hold the stealer exactly there until the owner has
+/// done all of this") without guessing point counts
+pub fn sync_point() {
+    let mut g = lock();
+    if let Some(s) = g.as_mut() {
+        if s.exploring {
+            s.run_left = 0;
+        }
+    }
+}
+
 pub fn stop_exploring() {
     let mut g = lock();
     let s = g.as_mut().unwrap();
